@@ -21,15 +21,18 @@ def cnat(n):
     return "%d%%nat" % n
 
 
-def item_lit(it):
-    return "(mkItem %s %s)" % (cz(1 if it.get("at_least") is None else it["at_least"]),
-                               cz(1 if it.get("weight") is None else it["weight"]))
+def item_lit(it, cg=None):
+    """an option a coverpoint / cross does not set itself cascades from the covergroup (impl/options.py create_model)"""
+    cg = cg or {}
+    eff = lambda k: it[k] if it.get(k) is not None else (cg[k] if cg.get(k) is not None else 1)
+    return "(mkItem %s %s)" % (cz(eff("at_least")), cz(eff("weight")))
 
 
 def param_lit(p):
     cps = clist([c10.spec_lit(dict(cp, ignore=cp.get("ignore", []), illegal=cp.get("illegal", []))) for cp in p["cps"]])
     xs = clist([clist([cnat(j) for j in x["cps"]]) for x in p["crosses"]])
-    items = clist([item_lit(cp) for cp in p["cps"]] + [item_lit(x) for x in p["crosses"]])
+    cg = p.get("cg_options")
+    items = clist([item_lit(cp, cg) for cp in p["cps"]] + [item_lit(x, cg) for x in p["crosses"]])
     return "(mkP12 %s %s %s)" % (cps, xs, items)
 
 
@@ -65,6 +68,14 @@ def gen_param(rnd, base=None):
         if ncp >= 2 and rnd.random() < 0.6:
             crosses.append({"cps": [0, 1], "at_least": rnd.choice([None, 1, 2]), "weight": rnd.choice([None, 1, 3])})
         p = {"cps": cps, "crosses": crosses}
+        if rnd.random() < 0.4:
+            # covergroup-level options: they cascade to every coverpoint / cross that does not set its own
+            p["cg_options"] = {"at_least": rnd.choice([None, 2, 3]), "weight": rnd.choice([None, 2, 3])}
+            for it in cps + crosses:
+                if rnd.random() < 0.6:
+                    it["at_least"] = None
+                if rnd.random() < 0.6:
+                    it["weight"] = None
     else:
         import copy
         p = copy.deepcopy(base)
@@ -81,9 +92,17 @@ def gen_param(rnd, base=None):
             cp["auto_bin_max"] = rnd.choice([1, 2, 3, 4, 64])
         elif cp["kind"] == "bins":
             arrs = [b for b in cp["bins"] if b[0] == "arr"]
-            if arrs:
+            if arrs and rnd.random() < 0.5:
                 b = rnd.choice(arrs)
                 b[1] = rnd.choice([None, 1, 2, 3, 4])        # the bin_array count: the classic "different number of bins"
+            elif arrs:
+                # same name, same lower bound, another upper bound of the array's last range (more or fewer values)
+                b = rnd.choice(arrs)
+                last = b[2][-1]
+                if isinstance(last, list):
+                    last[1] = max(last[0], last[1] + rnd.choice([-3, -2, -1, 1, 2, 3]))
+                else:
+                    b[2][-1] = [last, last + rnd.randint(1, 3)]
             else:
                 new = c11.gen_cp(rnd)
                 new["at_least"], new["weight"] = cp.get("at_least"), cp.get("weight")
